@@ -104,6 +104,11 @@ class SyncWorker(base.Worker):
                     if not self.alive:
                         break
 
+                    # the request served next may take up to the timeout:
+                    # the time spent waiting, or on the connection of the
+                    # previous listener, must not count against it
+                    self.notify()
+
                     try:
                         self.accept(listener)
                     except OSError as e:
